@@ -430,7 +430,7 @@ func planC09(tier string, root *simcore.RNG) *plan {
 					sites[hs] = 1
 				}
 				pl.scenarios = append(pl.scenarios, &Scenario{Prop: "C09", Family: "render", Seed: r.Uint64(), Groups: [][]Job{{j}},
-					Sites: sites, Sched: Sched{Policy: "starve", Victim: vic, Trig: (k + 1) / 2 * 2 / 2, Seed: r.Uint64()},
+					Sites: sites, Sched: Sched{Policy: "starve", Victim: vic, Trig: (k + 1) / 2, Seed: r.Uint64()},
 					Env: Env{GOMAXPROCS: pick(r, []int{1, 4, 16}), CPUs: pick(r, []int{4, 16})}, Note: "trigger-sweep", StepCap: 4000000})
 			}
 		}
@@ -508,6 +508,46 @@ func planC09(tier string, root *simcore.RNG) *plan {
 			pl.scenarios = append(pl.scenarios, &Scenario{Prop: "C09", Family: "render", Seed: r.Uint64(), Groups: [][]Job{{j}},
 				Sites: sites, Sched: genSched(r, []string{"evalpost", "consumer", fmt.Sprintf("eval:%d", r.Intn(8))}),
 				Env: Env{GOMAXPROCS: pick(r, []int{1, 4, 16}), CPUs: pick(r, []int{2, 4, 16})}, Note: "resolution-sweep"})
+		}
+	}
+	// trigger sweeps over two concurrent renders: the second render is held back (it has
+	// not even started) and let through exactly when a goroutine of the first is parked
+	// at the k-th distinct instrumented code location - e.g. while its writer is still
+	// working through the last batch. On the -race build.
+	{
+		r0 := root.Fork()
+		have := map[string]bool{}
+		for _, s := range cat {
+			have[s.key()] = true
+		}
+		a := c09sig{"mcu", pick(r0, []string{"sphere-box", "csg", "cube"}), "stl", 10}
+		b := c09sig{"mco", pick(r0, []string{"sphere-box", "csg", "cube"}), "tri", 8}
+		c := c09sig{"mcu", pick(r0, []string{"sphere-box", "csg", "cube"}), "3mf", 9}
+		for _, s := range []c09sig{a, b, c} {
+			if !have[s.key()] {
+				have[s.key()] = true
+				cat = append(cat, s)
+				pl.scenarios = append(pl.scenarios, &Scenario{Prop: "C09", Family: "render", Seed: r0.Uint64(), Groups: [][]Job{{s.job(1)}},
+					Sched: Sched{Policy: "fifo"}, Sites: map[string]uint32{}, Env: Env{GOMAXPROCS: 16, CPUs: 16}, Note: "canonical"})
+			}
+		}
+		kmax := 22
+		if tier == "thorough" {
+			kmax = 30
+		}
+		for k := 1; k <= kmax; k++ {
+			r := root.Fork()
+			first, second := a, b
+			if k%3 == 1 {
+				first, second = b, c
+			} else if k%3 == 2 {
+				first, second = c, a
+			}
+			sites := map[string]uint32{"close": 1, "go.start": 1, "worker.start": 1, "auto": 1, "write": 16, "mc.sent": 1,
+				"cons.tri": 1, "cons.stl": 1, "cons.stl.flush": 1, "cons.3mf": 1, "cons.3mf.encode": 1}
+			pl.scenarios = append(pl.scenarios, &Scenario{Prop: "C09", Family: "render", Seed: r.Uint64(), Groups: [][]Job{{first.job(1), second.job(2)}},
+				Sites: sites, Sched: Sched{Policy: "starve", Victim: "job:2", Trig: k, Seed: r.Uint64()},
+				Env: Env{GOMAXPROCS: pick(r, []int{2, 4, 16}), CPUs: 16, Race: true}, Note: "trigger-sweep-pair", StepCap: 4000000})
 		}
 	}
 	// the whole shape catalogue (every exported constructor and option): each entry is
